@@ -173,6 +173,27 @@ def run(ctx):
             ctx.fail(sc.key_of("src", mode.encode() + src),
                      "tpl/scanner and XGo scanner differ on %r (mode %s)" % (src, mode),
                      {"src_repr": repr(src), "src_hex": src.hex(), "mode": mode, "group": name, "tpl": impl[i][0][:400], "xgo": impl[i + 1][0][:400]})
+    # the hypothesis of C32_tpl_eq_xgo_on_shared, evaluated by the extracted model: wherever it holds
+    # the two real scanners must return the same tokens (kind by spelling, offset, literal) and errors
+    xcases = [cases[i + 1] for i in range(0, len(cases), 2)]
+    pred = R.run_pred(xcases)
+    sh = {"shared": 0, "shared_in_sequences": 0, "sequences": 0}
+    for k, (_, g) in enumerate(pred):
+        i = 2 * k
+        name = meta[i][0]
+        if name == "shared-lexeme-sequence":
+            sh["sequences"] += 1
+            sh["shared_in_sequences"] += int(g)
+        if not g:
+            continue
+        sh["shared"] += 1
+        st, tt, et = sc.parse_result(impl[i][0])
+        sx, tx, exx = sc.parse_result(impl[i + 1][0])
+        if st or sx or [(x2t.get(t, -1), p, l) for t, p, l in tx] != tt or et != exx:
+            src, mode = sc.src_of(cases[i]), cases[i][1]
+            ctx.fail(sc.key_of("src", mode.encode() + src),
+                     "shared holds in the model but the real scanners differ on %r (mode %s)" % (src, mode),
+                     {"src_repr": repr(src), "src_hex": src.hex(), "mode": mode, "group": name, "tpl": impl[i][0][:400], "xgo": impl[i + 1][0][:400]})
     ctx.cover(evaluations=len(cases), distinct_nontrivial=len(set(c[3:] for c in cases)),
               samples=[{"case": cases[k], "impl": impl[k][0][:160]} for k in (4 * len(ex) - 4, 4 * len(ex) + 40, len(cases) - 4 * len(FINDING_SET) - 3, len(cases) - 2)],
               rule="exhaustive: all %d strings of <=3 symbols over a %d-symbol alphabet; %d seeded shared-lexeme sequences (safe generator: "
@@ -182,7 +203,7 @@ def run(ctx):
                    "{tpl, XGo}. The real scanners are compared where both outputs contain only shared token kinds; in the exhaustive set "
                    "the three finding-set dimensions are skipped (counted in compare_stats). distinct = distinct source"
                    % (len(ex), len(sc.ALPHA), len(seqs), len(mal), len(FINDING_SET)),
-              exhaustive=True, exhaustive_part=4 * len(ex), compare_stats=stats, compared_per_group=per_group,
+              exhaustive=True, exhaustive_part=4 * len(ex), compare_stats=stats, theorem_hypothesis_stats=sh, compared_per_group=per_group,
               sequence_shape_histogram=dict(sorted(shapes.items())))
     ctx.trust("modelled, not verified: tpl/scanner/scanner.go and scanner/scanner.go (one Gallina text with a dialect switch), each tied "
               "to its implementation by the differential run")
